@@ -134,7 +134,7 @@ func selfTestBenign(c *Ctx) []selfTestResult {
 		}
 	}
 	sort.Strings(ids)
-	ids = append(ids, "alpha-rename-all-locals", "alpha-rename-locals-functions-fields")
+	ids = append(ids, "alpha-rename-all-locals", "alpha-rename-locals-functions-fields", "tail-split-half", "tail-split-third")
 	self, err := os.Executable()
 	if err != nil {
 		return nil
@@ -264,6 +264,7 @@ func benignKey(c *Ctx, self, dir string, ids []string) string {
 		add(filepath.Join(dir, id, "patch.diff"))
 	}
 	add(filepath.Join(c.Verif, "selftest", "alpharename", "main.go"))
+	add(filepath.Join(c.Verif, "selftest", "tailsplit", "main.go"))
 	return fmt.Sprintf("%x", h.Sum(nil))[:20]
 }
 
@@ -288,7 +289,36 @@ func runOneBenign(c *Ctx, self, dir, id string) map[string]selfTestResult {
 	exec.Command("cp", "-r", filepath.Join(c.Verif, "tables"), verifCopy).Run()
 	exec.Command("cp", filepath.Join(c.Verif, "known_findings.json"), verifCopy).Run()
 	env := append(os.Environ(), "GOFLAGS=-mod=mod", "GOPROXY=off", "GOSUMDB=off", "GOTOOLCHAIN=local", "GOWORK=off", "ZNCHECK_NO_SELFTEST=1", "GOMAXPROCS=4")
-	if strings.HasPrefix(id, "alpha-rename-") {
+	if strings.HasPrefix(id, "tail-split-") {
+		// every eligible function split in two (selftest/tailsplit)
+		tool := filepath.Join(c.Verif, "bin", "tailsplit")
+		if _, err := os.Stat(tool); err != nil {
+			b := exec.Command("go", "build", "-o", tool, ".")
+			b.Dir = filepath.Join(c.Verif, "selftest", "tailsplit")
+			b.Env = env
+			if out, err := b.CombinedOutput(); err != nil {
+				return whole("skipped(cannot build tailsplit: " + oneLine(string(out)) + ")")
+			}
+		}
+		args := []string{"-dir", repoCopy}
+		if strings.HasSuffix(id, "third") {
+			args = append(args, "-num", "1", "-den", "3", "-min", "3")
+		}
+		coreArgs := append([]string{}, args...)
+		for _, r := range corePkgs {
+			coreArgs = append(coreArgs, "./"+r)
+		}
+		sp := exec.Command(tool, coreArgs...)
+		sp.Dir = repoCopy
+		sp.Env = env
+		if out, err := sp.CombinedOutput(); err != nil {
+			return whole("skipped(tailsplit failed: " + oneLine(string(out)) + ")")
+		}
+		ss := exec.Command(tool, append(append([]string{}, args...), "-goos", "darwin", "./pkg/server")...)
+		ss.Dir = repoCopy
+		ss.Env = env
+		ss.Run()
+	} else if strings.HasPrefix(id, "alpha-rename-") {
 		tool := filepath.Join(c.Verif, "bin", "alpharename")
 		if _, err := os.Stat(tool); err != nil {
 			b := exec.Command("go", "build", "-o", tool, ".")
